@@ -281,7 +281,7 @@ def _run(prop, tier, seed, nshards, n, deadline, jobs, work, a, t0):
     print(line)
   if real:
     for v in real[:5]:
-      print("  witness: %s: %s" % (v["site"], v["msg"][:300]))
+      print("  witness: %s: %s%s" % (v["site"], v["msg"][:300], (" [classified %s, not a listed known finding]" % v["finding"]) if v["finding"] else ""))
     print("VIOLATION property=%s replay=%s" % (prop, replay_paths[0]))
     return 1
   if reasons:
